@@ -1392,6 +1392,9 @@ def corpus_entries(prop):
 def replay(prop, path):
     d = json.load(open(path))
     entry = d.get("replay", d)
+    if "notify_schedule" in entry:
+        from . import notify
+        return notify.replay_schedule(prop, path, entry["notify_schedule"])
     if "modes" not in entry and "observation" in entry:
         entry["modes"] = {c: v["mode"] for c, v in entry["observation"]["cl"].items()}
     with common.Workdir(prop + "_replay") as wd:
@@ -2017,6 +2020,12 @@ def run_pipeline(prop, tier, v, quick):
         for rec in records[:2] + records[-1:]:
             cov["samples"].append({"origin": rec.get("origin"), "schedule": runs[rec["tid"]].schedule[:60],
                                    "events": {c: [e["k"] + ":" + e["v"] for e in rec["cl"][c]["ev"]] for c in rec["cl"]}})
+        if prop in ("C18", "C03", "C08"):
+            # the notification layer on its own (Notify.tla): observers and eventual queue under a Deferred-mode application
+            from . import notify
+            t1 = time.time()
+            cov["notification_layer"] = notify.run_family(wd, quick, seed, v, prop)
+            cov["timing"]["notification_layer_s"] = round(time.time() - t1, 1)
     return cov
 
 
